@@ -288,6 +288,20 @@ def needs_confirmation(path: str) -> bool:
     return "(forall " in txt and ("seq." in txt or "(declare-datatypes" in txt)
 
 
+def strict_seq(path: str) -> bool:
+    """files on which z3's `unsat` has been seen to be wrong WITHOUT any configuration contradicting it (nested sequences
+    `(Seq String)` + seq.extract under quantifiers, selftest/solver_regress/uncaught_*.smt2).  With PYVC_STRICT_SEQ=1 an
+    `unsat` on such a file counts only if a non-z3 solver (cvc5) answered `unsat` too."""
+    if os.environ.get("PYVC_STRICT_SEQ", "0") != "1":
+        return False
+    try:
+        with open(path) as f:
+            txt = f.read()
+    except OSError:
+        return False
+    return "(Seq String)" in txt and "seq.extract" in txt and "(forall " in txt
+
+
 def _solver_cmd(solver: str, path: str, timeout: float):
     cmd = list(SOLVERS[solver])
     if solver.startswith("z3"):
@@ -396,6 +410,9 @@ def solve_file(res: Result, timeout=10.0, portfolio=PORTFOLIO, confirm_unsat=Tru
         res.confirm_attempts = att
         res.confirmed_by += agree
         res.time_s += max([a["time_s"] for a in att], default=0.0)
+        if dis is None and strict_seq(path) and not any(str(c_).startswith("cvc5") for c_ in res.confirmed_by):
+            res.status = "unknown"  # only z3 says unsat on a file of the kind z3 is known to get wrong
+            res.info = dict(res.info, unconfirmed="z3-only unsat on (Seq String)+seq.extract+quantifiers (PYVC_STRICT_SEQ=1)")
         if dis is not None:
             # two solver configurations contradict each other on this file: nothing is established
             res.status, res.disagree, res.model = "disagree", dis, dis["model"]
